@@ -60,7 +60,7 @@ ObsMirrorStep(mir, o) ==
      ELSE [on |-> TRUE, s |-> ApplySeq(mir[m].s, SigsOf(o, m))]]
 
 Cand(o, d) == LET e == Eff(reg, [op |-> o.op, p |-> o.p, i |-> o.i, v |-> o.v], d)
-              IN [reg |-> e.reg, res |-> e.res, used |-> e.used, mirror |-> MirrorStep(mirror, e.reg, e.sigs)]
+              IN [reg |-> TLCEval(e.reg), res |-> e.res, used |-> e.used, mirror |-> TLCEval(MirrorStep(mirror, e.reg, e.sigs))]
 
 KidsOk(r, o) == \A p \in Paths \ {Root} :
                   (\E x \in PresentPairs(r) : x[1] = p \/ x[1] \in Below(p)) => <<Parent[p], Leaf[p]>> \in ToSet(o.kids)
@@ -104,16 +104,17 @@ Finish == /\ k > Len(Steps(sc))
           /\ st' = "done"
           /\ UNCHANGED <<reg, mirror, hist, last, sc, k, used, mflag>>
 
+\* (`\E x \in {e}` binds x to the *value* of e: TLC evaluates e once instead of once per use)
 Step ==
   /\ k <= Len(Steps(sc))
-  /\ LET o    == Steps(sc)[k]
-         om   == ObsMirrorStep(mirror, o)
-         c0   == Cand(o, {})
-         good == IF Failing(c0, o, om) = {} THEN {{}}
-                 ELSE {d \in SUBSET AllDevs : d # {} /\ Failing(Cand(o, d), o, om) = {}}
-     IN
+  /\ \E o \in {Steps(sc)[k]} :
+     \E om \in {ObsMirrorStep(mirror, o)} :
+     \E c0 \in {Cand(o, {})} :
+     \E f0 \in {Failing(c0, o, om)} :
+     \E good \in {IF f0 = {} THEN {c0}
+                  ELSE {c \in {Cand(o, d) : d \in (SUBSET AllDevs) \ {{}}} : Failing(c, o, om) = {}}} :
      IF good = {}
-     THEN /\ OutAll("MISMATCH", Failing(c0, o, om),
+     THEN /\ OutAll("MISMATCH", f0,
                     LAMBDA w : [sc |-> sc, id |-> Rec[sc].id, step |-> k, what |-> w, op |-> <<o.op, o.p, o.i>>,
                                 expected |-> [res |-> c0.res, present |-> SetToSeq(Present(c0.reg))],
                                 got |-> [res |-> o.res, look |-> o.look, call |-> o.call, intro |-> o.intro,
@@ -127,16 +128,15 @@ Step ==
                                    op |-> <<o.op, o.p, o.i>>, listing |-> o.listing, sigs |-> o.sigs])
           /\ st' = "fail"
           /\ UNCHANGED <<reg, mirror, hist, last, sc, k, used, mflag>>
-     ELSE LET d == CHOOSE d \in good : \A e \in good : Cardinality(Cand(o, d).used) <= Cardinality(Cand(o, e).used)
-              c == Cand(o, d)
-              bad == ~mflag /\ ~PropMirror(o, om)
-          IN /\ OutAll("DEV", c.used \ {"nearest_only"},
+     ELSE \E c \in {CHOOSE c \in good : \A e \in good : Cardinality(c.used) <= Cardinality(e.used)} :
+          \E bad \in {~mflag /\ ~PropMirror(o, om)} :
+             /\ OutAll("DEV", c.used \ {"nearest_only"},
                        LAMBDA w : [sc |-> sc, id |-> Rec[sc].id, step |-> k, dev |-> w, op |-> <<o.op, o.p, o.i>>])
              /\ IF bad THEN Out("DEV", [sc |-> sc, id |-> Rec[sc].id, step |-> k, dev |-> "mirror",
                                         used |-> SetToSeq(used \cup c.used), op |-> <<o.op, o.p, o.i>>])
                 ELSE TRUE
-             /\ reg' = TLCEval(c.reg)
-             /\ mirror' = TLCEval(c.mirror)
+             /\ reg' = c.reg
+             /\ mirror' = c.mirror
              /\ used' = used \cup c.used
              /\ mflag' = (mflag \/ bad)
              /\ k' = k + 1
